@@ -1,4 +1,8 @@
 CHECKS = [
+    {"property_id": "C11",
+     "text": "Machine-checked Lean theorems over a hand-written model of src/aisle.rs (text as List Char, byte offsets) for ALL inputs: parse never reaches a panic site and every error span is a slice of the input on char boundaries carrying the reported text; a successful parse equals an independent right-fold specification of the line structure, names are trimmed, category and ingredient names are duplicate-free; parse(write(c)) = c for every parsed c (via a well-formedness predicate that characterises the range of parse); lookup returns category and first name. The model is compared with the real parse/write/ingredients_info on every string of length <= 5 (quick) / <= 6 (thorough) over the 13-symbol alphabet and on random structured files, and the property's oracle is evaluated on the real results.",
+     "note": "Trusted: Lean kernel; the hand-written model of std string routines (lines, split, trim offsets, HashSet), tied by exhaustive short-string correspondence; the White_Space table is checked against std in every run.",
+     "technique": "Lean 4 proof over a hand-written model + exhaustive/random differential correspondence with the Rust code + executable oracle on the implementation"},
     {"property_id": "C12",
      "text": "Machine-checked Lean theorems over exact rationals for every value, accuracy, maximum denominator and whole limit: declines non-positive input, exact value = input, error within accuracy, shape of the fraction (table decided on the constants generated from the current source), integers come back plain, printed form denotes the fraction. The f64 instance of the same definitions is compared bit-for-bit with Number::new_approx on ~87k (quick) / millions (thorough) of calls, and the postconditions are evaluated on the real results.",
      "note": "Trusted: Lean kernel; the constant scraper; IEEE rounding is outside the theorems (bit-exact correspondence only); std float primitives assumed identical in Lean and Rust.",
